@@ -12,6 +12,7 @@ from values import Fl, In
 from mirutil import f64_from_bits, f32_from_bits, successors
 
 WIDEN_AFTER = 3
+MAX_PARTITIONS = 10
 MAX_DEPTH = 24
 MAX_STEPS = 200000
 
@@ -545,6 +546,8 @@ class Interp:
                     val = p[e[1]] if e[1] < len(p) else Top()
                 elif isinstance(val, tuple):
                     val = val[e[1]] if e[1] < len(val) else Top()
+                elif isinstance(val, Vc):
+                    pass      # Box<[T]> / Vec<T> internals (Unique -> NonNull -> pointer) are transparent: still the same sequence
                 else:
                     val = Top(e[2] if len(e) > 2 else None)
             elif e[0] == "v":
@@ -946,6 +949,8 @@ class Interp:
         if kind.startswith("PointerCoercion"):
             return a
         if kind in ("PtrToPtr", "Transmute", "Subtype"):
+            if kind == "Transmute" and t["k"] in ("rawptr", "ref") and isinstance(a, (Vc, Rf)):
+                return a
             return a if kind != "Transmute" else self.top_of(ty)
         return self.top_of(ty)
 
@@ -1074,9 +1079,12 @@ class Interp:
         if spread is not None and len(args) > nargs:
             # closure call shims pass a tuple that is spread; not needed for crate-local closures
             pass
-        in_states = {0: st0}
+        # block -> {partition signature -> state}; with self.partition the states whose exact counters (integer points,
+        # exact vector / iterator lengths) differ are kept apart (bounded loop unrolling by trace partitioning)
+        in_states = {0: {None: st0}}
         visits = {}
-        work = [0]
+        collapsed = set()
+        work = [(0, None)]
         self.flow_preds = getattr(self, "flow_preds", {})
         flow = {}
         self.flow_preds[fid] = flow
@@ -1084,14 +1092,19 @@ class Interp:
         ret_state = None
         order = _rpo_index(blocks)
         live_in, always_live = liveness(inst)
+        part = getattr(self, "partition", False)
+        widen_after = getattr(self, "widen_after", WIDEN_AFTER)
         while work:
             self.step += 1
             if self.step > MAX_STEPS:
                 self.imprecise.append("step limit")
                 break
-            work.sort(key=lambda b: -order.get(b, 0))
-            bi = work.pop()
-            s = dict(in_states[bi])
+            work.sort(key=lambda w: -order.get(w[0], 0))
+            bi, sg = work.pop()
+            cur = in_states.get(bi, {}).get(sg)
+            if cur is None:
+                continue
+            s = dict(cur)
             outs = self.exec_block(inst, fid, bi, s)
             for succ, s2 in outs:
                 if succ != "return":
@@ -1107,22 +1120,35 @@ class Interp:
                 lv = live_in[succ]
                 s2 = {k: v for k, v in s2.items() if not ((k[0] == fid and k[1] not in lv and k[1] not in always_live) or
                                                           (k[0] in ("w", "c") and k[1] == fid and k[2] not in lv and k[2] not in always_live))}
-                old = in_states.get(succ)
+                sg2 = exact_signature(s2, fid) if part and succ not in collapsed else None
+                slot = in_states.setdefault(succ, {})
+                if part and succ not in collapsed and sg2 not in slot and len(slot) >= MAX_PARTITIONS:
+                    # too many partitions: collapse this block to one ordinary (joined, widened) state
+                    merged = None
+                    for x in slot.values():
+                        merged = x if merged is None else join_states(merged, x)
+                    slot.clear()
+                    slot[None] = merged
+                    collapsed.add(succ)
+                    sg2 = None
+                    work[:] = [w for w in work if w[0] != succ]
+                old = slot.get(sg2)
+                vk = (succ, sg2)
                 if old is None:
-                    in_states[succ] = s2
-                    visits[succ] = 1
-                    if succ not in work:
-                        work.append(succ)
+                    slot[sg2] = s2
+                    visits[vk] = 1
+                    if (succ, sg2) not in work:
+                        work.append((succ, sg2))
                 else:
-                    visits[succ] = visits.get(succ, 0) + 1
-                    if visits[succ] > WIDEN_AFTER:
+                    visits[vk] = visits.get(vk, 0) + 1
+                    if visits[vk] > widen_after:
                         new = widen_states(old, s2, self.landmarks)
                     else:
                         new = join_states(old, s2)
                     if not states_equal(new, old):
-                        in_states[succ] = new
-                        if succ not in work:
-                            work.append(succ)
+                        slot[sg2] = new
+                        if (succ, sg2) not in work:
+                            work.append((succ, sg2))
         self.call_stack.pop()
         self.site_stack.pop()
         self.depth -= 1
@@ -1572,6 +1598,34 @@ def _rpo_index(blocks):
             order.append(n)
             st.pop()
     return {b: i for i, b in enumerate(reversed(order))}
+
+
+def _exact(v):
+    """A hashable description of the exact counters inside a value, or None."""
+    if isinstance(v, In):
+        return ("i", v.lo) if v.lo == v.hi else None
+    if isinstance(v, DiscrIn):
+        return None
+    if isinstance(v, Vc):
+        return ("v", v.len.lo) if v.len.lo == v.len.hi else None
+    if isinstance(v, Ax):
+        if v.kind == "iter" and isinstance(v.data[1], In) and v.data[1].lo == v.data[1].hi:
+            return ("it", v.data[1].lo)
+        return None
+    if isinstance(v, St):
+        parts = tuple(_exact(f) for f in v.fields)
+        return ("s",) + parts if any(p is not None for p in parts) else None
+    return None
+
+
+def exact_signature(st, fid):
+    sig = []
+    for k, v in st.items():
+        if k[0] == fid and isinstance(k[1], int):
+            e = _exact(v)
+            if e is not None:
+                sig.append((k[1], e))
+    return tuple(sorted(sig, key=repr)) if sig else None
 
 
 def join_states(a, b):
